@@ -27,6 +27,8 @@ type C18Case struct {
 	Burst bool `json:"burst,omitempty"`
 	// Limit: (replay of) the nesting limit tier
 	Limit bool `json:"limit,omitempty"`
+	// LongTail: (replay of) the long tail tier
+	LongTail bool `json:"long_tail,omitempty"`
 }
 
 func scannerGoroutines() int {
@@ -130,6 +132,12 @@ func checkC18(c C18Case) Verdict {
 			return bad(true, "%v", err)
 		}
 		return ok(true, "burst")
+	}
+	if c.LongTail {
+		if err := c18LongTail(); err != nil {
+			return bad(true, "%v", err)
+		}
+		return ok(true, "long-tail")
 	}
 	if c.Limit {
 		if err := c18Limit(); err != nil {
@@ -293,7 +301,42 @@ func c18Limit() error {
 	return nil
 }
 
+// The long tail tier: the parser stops reading early (trailing tokens after a complete expression, a syntax
+// error at the top of a file) while the scanner still has tens of megabytes in front of it - seconds of
+// work. When the parse returns, the scanner has exited all the same.
+func c18LongTail() error {
+	n := scale(12, 40) * 1000000
+	for _, in := range []struct {
+		what string
+		run  func()
+	}{
+		{fmt.Sprintf("parse.Expr of \"1\" followed by %d more numbers", n), func() { parse.Expr("1" + strings.Repeat(" 1", n)) }},
+		{fmt.Sprintf("parse.SoyFile of a namespace tag without a name followed by %d print commands", n/3), func() {
+			parse.SoyFile("tail.soy", "{namespace}\n"+strings.Repeat("{$a}", n/3))
+		}},
+		{fmt.Sprintf("parse.Expr of \"$a b\" followed by a string literal of %d bytes and more", 2*n), func() { parse.Expr("$a b '" + strings.Repeat("xy", n) + "' c") }},
+	} {
+		base := settle()
+		if !finishes(40*watchdogLimit(), func() { catch(in.run) }) {
+			fmt.Printf("INFRA: %s did not return (property C05 decides that)\n", in.what)
+			os.Exit(2)
+		}
+		if left := settleTo(base); left > base {
+			return fmt.Errorf("%d scanner goroutine(s) still alive after the parse returned: %s", left-base, in.what)
+		}
+		runtime.GC()
+	}
+	return nil
+}
+
 func TestC18(t *testing.T) {
+	if (shard() == "2" || os.Getenv("VERIF_NSHARDS") == "1") && os.Getenv("VERIF_REPLAY") == "" && os.Getenv("VERIF_CORPUS_ONLY") == "" {
+		if err := c18LongTail(); err != nil {
+			c := C18Case{LongTail: true}
+			writeFail("C18", c, err)
+			t.Fatalf("long tail tier: %v", err)
+		}
+	}
 	if shard() == "1" && os.Getenv("VERIF_REPLAY") == "" && os.Getenv("VERIF_CORPUS_ONLY") == "" {
 		if err := c18Limit(); err != nil {
 			c := C18Case{Limit: true}
